@@ -404,6 +404,8 @@ def build_cases(tier="quick"):
     from contracts import c15
 
     for c in c15.frontier_cases():
+        if "nested frame" in c.case:
+            continue  # (a C13/C15 matter: what happens to a failure raised in a nested frame)
         ref.append(Case(f"{PROP}/__main__._compute_frontier#shared-call-sequence", c.case, c.harness, replay=c.replay, sources=c.sources))
     from contracts import c05
 
